@@ -75,6 +75,7 @@ pub fn dispatch(op: &str, _args: &[String]) -> bool {
         "c02-render" => run_batch(op_render),
         "c02-fit" => run_batch(op_fit),
         "c02-morph" => run_batch(op_morph),
+        "c02-kernel" => run_batch(op_kernel),
         "c02-classify" => run_batch(op_classify),
         _ => return false,
     }
@@ -435,4 +436,181 @@ fn op_morph(payload: &str) -> String {
     done.store(true, Ordering::SeqCst);
     let out: Vec<String> = data.iter().flat_map(|p| [p.r, p.g, p.b, p.a]).map(|v| v.to_string()).collect();
     format!("{};{}", ms, out.join(" "))
+}
+
+/// payload: `w\th\tseed\tscale\t<primitive xml>`: one filter kernel (through resvg::verif_hooks::kernels) on a w x h image.
+/// The primitive is parsed by usvg (so every parameter is one usvg accepts); images are pseudo-random premultiplied
+/// RGBA.  -> {"ok":true,"kind":..,"ms":..,"bad_alpha":n} | {"skip":..}; a panic is reported by run_batch, a call that
+/// exceeds 3 s aborts the worker ("c02-watchdog").
+fn op_kernel(payload: &str) -> String {
+    use resvg::verif_hooks::kernels as k;
+    use usvg::filter::Kind;
+    let f: Vec<&str> = payload.splitn(5, '\t').collect();
+    if f.len() < 5 {
+        return "{\"error\":\"bad payload\"}".into();
+    }
+    let w: u32 = f[0].parse().unwrap_or(0);
+    let h: u32 = f[1].parse().unwrap_or(0);
+    let seed: u64 = f[2].parse().unwrap_or(1);
+    let scale: f32 = f[3].parse().unwrap_or(1.0);
+    if w == 0 || h == 0 {
+        return "{\"skip\":\"size\"}".into();
+    }
+    let doc = format!(
+        "<svg xmlns=\"http://www.w3.org/2000/svg\" width=\"100\" height=\"100\"><filter id=\"f\" filterUnits=\"userSpaceOnUse\" x=\"0\" y=\"0\" width=\"100\" height=\"100\" primitiveUnits=\"userSpaceOnUse\">{}</filter><rect width=\"10\" height=\"10\" filter=\"url(#f)\"/></svg>",
+        f[4]
+    );
+    let tree = match std::panic::catch_unwind(|| parse_doc("nofonts", &doc)) {
+        Ok(Ok(t)) => t,
+        Ok(Err(e)) => return format!("{{\"skip\":\"parse\",\"error\":{}}}", esc(&e)),
+        Err(_) => return "{\"skip\":\"parse-panic\"}".into(),
+    };
+    let filter = match tree.filters().first() {
+        Some(x) => x.clone(),
+        None => return "{\"skip\":\"no-filter\"}".into(),
+    };
+    let prim = match filter.primitives().first() {
+        Some(p) => p,
+        None => return "{\"skip\":\"no-primitive\"}".into(),
+    };
+    let mut rng = SplitMix64(seed);
+    let mut mk = |rng: &mut SplitMix64| -> Vec<k::RGBA8> {
+        (0..(w * h))
+            .map(|_| {
+                let a = match rng.below(4) {
+                    0 => 0u8,
+                    1 => 255u8,
+                    _ => rng.below(256) as u8,
+                };
+                let c = |rng: &mut SplitMix64| if a == 0 { 0 } else { rng.below(a as u64 + 1) as u8 };
+                k::RGBA8 { r: c(rng), g: c(rng), b: c(rng), a }
+            })
+            .collect()
+    };
+    let mut a = mk(&mut rng);
+    let b = mk(&mut rng);
+    let mut dest = vec![k::RGBA8::default(); (w * h) as usize];
+    let done = std::sync::Arc::new(AtomicBool::new(false));
+    let d = done.clone();
+    std::thread::spawn(move || {
+        let t0 = std::time::Instant::now();
+        while !d.load(Ordering::SeqCst) {
+            if t0.elapsed().as_millis() > 3000 {
+                eprintln!("c02-watchdog: filter kernel exceeded 3000 ms");
+                std::process::abort();
+            }
+            std::thread::sleep(std::time::Duration::from_millis(20));
+        }
+    });
+    struct Done(std::sync::Arc<AtomicBool>);
+    impl Drop for Done {
+        fn drop(&mut self) {
+            self.0.store(true, Ordering::SeqCst);
+        }
+    }
+    let _done = Done(done);
+    let ts = tiny_skia::Transform::from_scale(scale, scale);
+    let t0 = std::time::Instant::now();
+    let mut check_alpha = false;
+    let kind = match prim.kind() {
+        Kind::GaussianBlur(ref fe) => match k::resolve_std_dev(fe.std_dev_x().get(), fe.std_dev_y().get(), ts) {
+            Some((dx, dy, true)) => {
+                k::box_blur(dx, dy, k::ImageRefMut::new(w, h, &mut a));
+                "box_blur"
+            }
+            Some((dx, dy, false)) => {
+                k::iir_blur(dx, dy, k::ImageRefMut::new(w, h, &mut a));
+                "iir_blur"
+            }
+            None => "blur-none",
+        },
+        Kind::DropShadow(ref fe) => match k::resolve_std_dev(fe.std_dev_x().get(), fe.std_dev_y().get(), ts) {
+            Some((dx, dy, true)) => {
+                k::box_blur(dx, dy, k::ImageRefMut::new(w, h, &mut a));
+                "box_blur"
+            }
+            Some((dx, dy, false)) => {
+                k::iir_blur(dx, dy, k::ImageRefMut::new(w, h, &mut a));
+                "iir_blur"
+            }
+            None => "blur-none",
+        },
+        Kind::ColorMatrix(ref fe) => {
+            k::demultiply_alpha(&mut a);
+            k::color_matrix(fe.kind(), k::ImageRefMut::new(w, h, &mut a));
+            k::multiply_alpha(&mut a);
+            check_alpha = true;
+            "color_matrix"
+        }
+        Kind::ComponentTransfer(ref fe) => {
+            k::demultiply_alpha(&mut a);
+            k::component_transfer(fe, k::ImageRefMut::new(w, h, &mut a));
+            k::multiply_alpha(&mut a);
+            check_alpha = true;
+            "component_transfer"
+        }
+        Kind::Composite(ref fe) => {
+            if let usvg::filter::CompositeOperator::Arithmetic { k1, k2, k3, k4 } = fe.operator() {
+                k::arithmetic(k1, k2, k3, k4, k::ImageRef::new(w, h, &a), k::ImageRef::new(w, h, &b), k::ImageRefMut::new(w, h, &mut dest));
+                a.copy_from_slice(&dest);
+                check_alpha = true;
+                "arithmetic"
+            } else {
+                "composite-other"
+            }
+        }
+        Kind::ConvolveMatrix(ref fe) => {
+            if fe.preserve_alpha() {
+                k::demultiply_alpha(&mut a);
+            }
+            k::convolve_matrix(fe, k::ImageRefMut::new(w, h, &mut a));
+            "convolve_matrix"
+        }
+        Kind::DisplacementMap(ref fe) => {
+            let s = fe.scale() * scale;
+            k::displacement_map(fe, s, s, k::ImageRef::new(w, h, &a), k::ImageRef::new(w, h, &b), k::ImageRefMut::new(w, h, &mut dest));
+            a.copy_from_slice(&dest);
+            "displacement_map"
+        }
+        Kind::DiffuseLighting(ref fe) => {
+            k::diffuse_lighting(fe, fe.light_source(), k::ImageRef::new(w, h, &a), k::ImageRefMut::new(w, h, &mut dest));
+            a.copy_from_slice(&dest);
+            "diffuse_lighting"
+        }
+        Kind::SpecularLighting(ref fe) => {
+            k::specular_lighting(fe, fe.light_source(), k::ImageRef::new(w, h, &a), k::ImageRefMut::new(w, h, &mut dest));
+            a.copy_from_slice(&dest);
+            "specular_lighting"
+        }
+        Kind::Morphology(ref fe) => {
+            let (rx, ry) = (fe.radius_x().get() * scale, fe.radius_y().get() * scale);
+            if rx > 0.0 && ry > 0.0 {
+                k::morphology(fe.operator(), rx, ry, k::ImageRefMut::new(w, h, &mut a));
+                check_alpha = true;
+            }
+            "morphology"
+        }
+        Kind::Turbulence(ref fe) => {
+            k::turbulence(
+                rng.below(200) as f64 - 100.0,
+                rng.below(200) as f64 - 100.0,
+                scale as f64,
+                scale as f64,
+                fe.base_frequency_x().get() as f64,
+                fe.base_frequency_y().get() as f64,
+                fe.num_octaves(),
+                fe.seed(),
+                fe.stitch_tiles(),
+                fe.kind() == usvg::filter::TurbulenceKind::FractalNoise,
+                k::ImageRefMut::new(w, h, &mut a),
+            );
+            k::multiply_alpha(&mut a);
+            check_alpha = true;
+            "turbulence"
+        }
+        _ => "not-a-kernel",
+    };
+    let ms = t0.elapsed().as_millis();
+    let bad_alpha = if check_alpha { a.iter().filter(|p| p.r > p.a || p.g > p.a || p.b > p.a).count() } else { 0 };
+    format!("{{\"ok\":true,\"kind\":\"{}\",\"ms\":{},\"len\":{},\"bad_alpha\":{}}}", kind, ms, a.len(), bad_alpha)
 }
